@@ -17,6 +17,8 @@ pub enum React {
     PullTerminate,
     /// Pull, then (if still allowed) Error, inside the same handler
     PullError,
+    /// a Pull sent although the subscription is over (only with `late_pulls`; C15 robustness)
+    LatePull,
 }
 
 #[derive(Clone, Debug)]
@@ -30,14 +32,16 @@ pub struct ProbeSpec {
     /// share only: from inside a handler, attach another probe to the same output:
     /// (trigger: 0 = in the greeting, 1 = in the k-th datum, 2 = in the terminal; k; probe index)
     pub attach: Option<(u8, usize, usize)>,
+    /// the sink may send Pulls after it received the end or after it disposed (from_iter / C15 only)
+    pub late_pulls: bool,
 }
 
 impl ProbeSpec {
     pub fn passive() -> Self {
-        ProbeSpec { policy: vec![], rest: React::Nothing, pull_cap: 1000, attach: None }
+        ProbeSpec { policy: vec![], rest: React::Nothing, pull_cap: 1000, attach: None, late_pulls: false }
     }
     pub fn puller() -> Self {
-        ProbeSpec { policy: vec![], rest: React::Pull, pull_cap: 1000, attach: None }
+        ProbeSpec { policy: vec![], rest: React::Pull, pull_cap: 1000, attach: None, late_pulls: false }
     }
 }
 
@@ -70,6 +74,9 @@ impl<T: Repr + Send + Sync + 'static> Probe<T> {
         let edge = world.new_edge(Role::Probe(idx as u16), format!("S{}", idx), output_label, "probe");
         // a probe is its own output subscription
         world.with_edge(edge, |e| e.owner = idx as i32);
+        if spec.late_pulls {
+            world.with_edge(edge, |e| e.lenient_sink = true);
+        }
         let err: DynErr = Arc::new(ProbeError(idx));
         let err_id = world.register_err(&err, "S");
         Arc::new(Probe {
@@ -158,6 +165,18 @@ impl<T: Repr + Send + Sync + 'static> Probe<T> {
 
     /// Perform an action if (and only if) a conformant sink may perform it now.
     pub fn act(self: &Arc<Self>, r: React) -> bool {
+        if r == React::LatePull {
+            let e = self.world.edge(self.edge);
+            let tb = self.talkback.lock().unwrap().clone();
+            if self.spec.late_pulls && e.greeted > 0 && (e.down_term || e.up_term) && (e.pulls_up as usize) < self.spec.pull_cap {
+                if let Some(tb) = tb {
+                    let _f = self.world.enter(self.edge, Dir::Up, Kind::Pull, Val::none(), -1);
+                    tb(Message::Pull);
+                    return true;
+                }
+            }
+            return false;
+        }
         if r == React::Nothing || !self.can_act() {
             return false;
         }
@@ -175,7 +194,7 @@ impl<T: Repr + Send + Sync + 'static> Probe<T> {
             None => return false,
         };
         match r {
-            React::Nothing | React::PullTerminate | React::PullError => {},
+            React::Nothing | React::PullTerminate | React::PullError | React::LatePull => {},
             React::Pull => {
                 let _f = self.world.enter(self.edge, Dir::Up, Kind::Pull, Val::none(), -1);
                 tb(Message::Pull);
